@@ -135,6 +135,12 @@ func runC08(c *core.Ctx) {
 	c.Rule("R4", "nothing is delivered on a declared length alone (no bare LimitReader downstream)", 4)
 	c.Rule("R5", "no read error is dropped", 8)
 	c.Rule("R6", "no unchecked len(a)-len(b) slice bound", 1)
+	// the decoders rely on two things outside codec/frame: a read failure in the middle of a frame ends the
+	// channel (the tail handler closes on every unhandled exception, C03-R4), and the bytes the transport wrapper
+	// hands up are the stream in order (one read source per wrapper, C17-R2)
+	c.Rule("R8", "an unhandled read failure closes the channel; the transport wrappers deliver the stream in order (shared with C03-R4, C17-R2)", 2)
+	importObligations(c, runC03, "R8", func(o *core.Obligation) bool { return o.Rule == "R4" && strings.Contains(o.Key, "tail-handler") })
+	importObligations(c, runC17, "R8", func(o *core.Obligation) bool { return o.Rule == "R2" })
 	codecs := frameCodecs(p)
 
 	// ---- R1
